@@ -75,26 +75,27 @@ EffN(n) == IF n <= 0 THEN DefaultN ELSE n
 
 \* ------------------------------------------------------------------------
 \* The server side of one page request (ociserver.nextListResults) given the backend
-\* iterator's stream from `last`: it refuses n > max, otherwise consumes up to n+1
+\* iterator's stream from `last`: it refuses n > max (the backend iterator has been
+\* created by then: `eager` is what that alone causes), otherwise consumes up to n+1
 \* backend calls; an error among them fails the request; the page is the first n items;
 \* a Link is sent iff an (n+1)-th item was seen and links are enabled.
-Page(nd, inner, last, n) ==
+Page(nd, inner, eager, n) ==
   IF nd.max > 0 /\ n > nd.max
-  THEN [seen |-> <<>>, items |-> <<>>, err |-> "UNSUPPORTED", link |-> FALSE]
+  THEN [seen |-> eager, items |-> <<>>, err |-> "UNSUPPORTED", link |-> FALSE]
   ELSE LET got == Observed(inner, n + 1)
            xs == Items(got)
            page == IF Len(xs) > n THEN SubSeq(xs, 1, n) ELSE xs
        IN [seen |-> Reqs(got), items |-> page, err |-> ErrOf(got),
            link |-> Len(xs) > n /\ nd.link]
 
-RECURSIVE Stream(_, _, _), Pager(_, _, _, _)
+RECURSIVE Stream(_, _, _), Pager(_, _, _, _), Eager(_, _, _)
 
 \* The client side (ociclient.pager): request, yield the page, stop on a short page,
 \* otherwise continue after the final item (Link header or last=: the same target).
 Pager(nd, last, kind, fuel) ==
   IF fuel = 0 THEN <<Diverge>> ELSE
   LET n == EffN(nd.n)
-      p == Page(nd, Stream(nd.x, last, kind), last, n)
+      p == Page(nd, Stream(nd.x, last, kind), Eager(nd.x, last, kind), n)
   IN IF p.err # ""
      THEN p.seen \o <<Req(nd.hop, n, last, 0, FALSE, -1, p.err), Err(p.err)>>
      ELSE LET fin == IF p.items = <<>> THEN 0 ELSE Pos(p.items[Len(p.items)]) IN
@@ -144,6 +145,16 @@ Stream(nd, a, kind) ==
          ELSE Stream(nd.x, a, kind)
     [] nd.t = "unify" -> Merge(Stream(nd.x, a, kind), Stream(nd.y, a, kind))
     [] nd.t = "http" -> IF kind = "refs" THEN Single(nd, kind) ELSE Pager(nd, a, kind, Fuel)
+
+\* Most iterators do nothing until they are run.  These do their work when they are
+\* created: ociunify (drains both members), ociclient.Referrers (sends its request),
+\* and what merely forwards the call: ocidebug, and Select / Sub for tags and referrers.
+Eager(nd, a, kind) ==
+  CASE nd.t = "mem" -> <<>>
+    [] nd.t = "unify" -> Reqs(Stream(nd, a, kind))
+    [] nd.t = "http" -> IF kind = "refs" THEN Reqs(Stream(nd, a, kind)) ELSE <<>>
+    [] nd.t = "debug" -> Eager(nd.x, a, kind)
+    [] nd.t \in {"select", "sub"} -> IF kind = "repos" THEN <<>> ELSE Eager(nd.x, a, kind)
 
 \* ------------------------------------------------------------------------
 \* What a stack exposes, independently of how it pages.
